@@ -106,11 +106,15 @@ def run(ctx):
                 def forward(self, x):
                     return self.net(x.to(torch.float32) % 7)
             try:
-                m1 = [round(float(v), 5) for v in Predictor(graph, Net())(st).tolist()]
-                m2 = [round(float(v), 5) for v in Predictor(g2, Net())(st).tolist()]
-                m3 = [round(float(v), 5) for v in Predictor(g2, Net())(st).tolist()]
+                m1 = [float(v) for v in Predictor(graph, Net())(st).tolist()]
+                m2 = [float(v) for v in Predictor(g2, Net())(st).tolist()]
+                m3 = [float(v) for v in Predictor(g2, Net())(st).tolist()]
                 ctx.count("module_predictor_cases")
-                if m1 != m2 or m2 != m3:
+                # float32 arithmetic of a matrix product may differ in the last bits between batch shapes: compare with a tolerance far below the
+                # effect of dropout / batch statistics (which is of the order of the scores themselves)
+                tol_ = 1e-3 * (1.0 + max(abs(v) for v in m2))
+                close_ = lambda a_, b_: len(a_) == len(b_) and all(abs(x_ - y_) <= tol_ for x_, y_ in zip(a_, b_))   # noqa: E731
+                if not close_(m1, m2) or not close_(m2, m3):
                     ctx.violation("property_fails", "a torch module used as predictor gives scores that depend on the batch size or on the call (left in training mode?)",
                                   dict(case, claim="module_predictor"), True)
             except Exception as ex:  # pylint: disable=broad-except
